@@ -74,10 +74,10 @@ def cases(ctx):
                             "src": f"*={org:#08x}\nc := {v:#x}\n{{\n{mn} c\nc:\n}}\nl2:\n.dl l2\n"})
                 out.append({"kind": "backward", "rom": rom, "trace": True, "spec": {"t": "trace"},
                             "src": f"*={org:#08x}\nc := {v:#x}\n{mn} c\nl2:\n{mn}.l l3\n.dl l2\nl3:\n"})
-                out.append({"kind": "forward-unsized", "rom": rom, "trace": True, "spec": {"t": "trace"},
+                out.append({"kind": "forward-unsized", "rom": rom, "spec": {"t": "reject"},
                             "src": f"*={org:#08x}\n{mn} fwd\nfwd:\n.dl fwd\n"})
         # *= through a constant that a later label shadows
-        out.append({"kind": "shadow-org", "rom": rom, "trace": True, "spec": {"t": "trace"},
+        out.append({"kind": "shadow-org", "rom": rom, "spec": {"t": "reject"},
                     "src": f"*={org:#08x}\nc := {org + 0x100:#x}\n{{\n*= c\nnop\nc:\n}}\nl2:\n.dl l2\n"})
     # a macro application that expands to nothing, then named scopes with equal label names: every label and every
     # exported scope.name is still the address of ITS definition
